@@ -8,6 +8,7 @@ package txn
 import (
 	"fmt"
 	"go/types"
+	"os"
 	"regexp"
 	"sort"
 	"strings"
@@ -46,6 +47,70 @@ type inputObj struct{ name string }
 func (i *inputObj) ObjString() string { return i.name }
 
 var maxCalls = 7
+
+// noResultLaw: combinators whose result is not made of sub-parser results
+// (a wrapped token, a transformed list, nothing).
+var noResultLaw = map[string]bool{"Accept": true, "Fmap": true, "Ok": true}
+
+// dropsAll: combinators documented to return no nodes at all.
+var dropsAll = map[string]bool{"Drop": true, "Assert": true, "Not": true}
+
+// dropsParam: parameters (by position) whose nodes the combinator documents as
+// thrown away: the separator of SeparatedBy, the delimiters of SurroundedBy.
+var dropsParam = map[string][]int{"SeparatedBy": {1}, "SurroundedBy": {0, 2}}
+
+func dropped(fn *ssa.Function, comb, evName string) bool {
+	for _, i := range dropsParam[comb] {
+		if i >= len(fn.Params) {
+			continue
+		}
+		pn := fn.Params[i].Name()
+		if evName == pn || strings.HasPrefix(evName, pn+".") {
+			return true
+		}
+	}
+	return false
+}
+
+// flatResult reads the symbolic result of a path as a concatenation of whole
+// sub-results; opaque names the first part that is something else.
+func flatResult(k string) (atoms []string, opaque string) {
+	k = strings.TrimSpace(k)
+	switch {
+	case k == "nil" || k == "slice[]" || k == "":
+		return nil, ""
+	case strings.HasPrefix(k, "res:") && !strings.ContainsAny(k, "(),"):
+		return []string{k}, ""
+	case strings.HasPrefix(k, "append(") && strings.HasSuffix(k, ")"):
+		inner := k[len("append(") : len(k)-1]
+		depth, cut := 0, -1
+		for i, ch := range inner {
+			switch ch {
+			case '(', '[':
+				depth++
+			case ')', ']':
+				depth--
+			case ',':
+				if depth == 0 && cut < 0 {
+					cut = i
+				}
+			}
+		}
+		if cut < 0 {
+			return nil, k
+		}
+		a, oa := flatResult(inner[:cut])
+		b, ob := flatResult(inner[cut+1:])
+		if oa != "" {
+			return nil, oa
+		}
+		if ob != "" {
+			return nil, ob
+		}
+		return append(a, b...), ""
+	}
+	return nil, k
+}
 
 // combinators whose documented contract is "consumes nothing"
 var lookAhead = map[string]bool{"Assert": true, "Not": true}
@@ -174,6 +239,7 @@ func checkCombinator(p *load.Program, s *oblig.Set, fn *ssa.Function, parserT ty
 			in.MaxStep = 100000
 			pi := &pathInfo{pos: "p0"}
 			ncall := 0
+			succeeded := map[string]bool{}
 			input := &inputObj{"INPUT"}
 			consume := func(tag string) string { return pi.pos + "+" + tag }
 			in.Hooks.CallValue = func(in *absint.Interp, fnv absint.Val, args []absint.Val, site ssa.Instruction) (absint.Val, bool) {
@@ -200,6 +266,7 @@ func checkCombinator(p *load.Program, s *oblig.Set, fn *ssa.Function, parserT ty
 				}
 				ev.pos1 = pi.pos
 				pi.events = append(pi.events, ev)
+				succeeded["res:"+tag] = okc
 				res := absint.Val(absint.NewVar("res:"+tag, nodesT))
 				if okc {
 					return &absint.Tuple{E: []absint.Val{res, absint.Const{T: errT}}}, true
@@ -207,6 +274,25 @@ func checkCombinator(p *load.Program, s *oblig.Set, fn *ssa.Function, parserT ty
 				ec := in.NewCell(absint.NewVar("errdata:"+tag, nil), "err:"+tag)
 				ec.Name = "err:" + tag
 				return &absint.Tuple{E: []absint.Val{res, &absint.Ptr{Cell: ec}}}, true
+			}
+			// a parser that succeeds returns a (possibly empty) non-nil list: every
+			// combinator and transformer of the repository does (Ok, Assert, Drop and
+			// Any build one explicitly); a nil list is what accompanies an error
+			in.Hooks.Branch = func(in *absint.Interp, cond absint.Val, site ssa.Instruction) (bool, bool) {
+				sy, ok := cond.(*absint.Sym)
+				if !ok || (sy.Op != "!=" && sy.Op != "==") || len(sy.Args) != 2 {
+					return false, false
+				}
+				for i, a := range sy.Args {
+					v, isV := a.(*absint.Sym)
+					if !isV || !strings.HasPrefix(v.Name, "res:") || !absint.IsNil(sy.Args[1-i]) {
+						continue
+					}
+					if succeeded[v.Name] {
+						return sy.Op == "!=", true
+					}
+				}
+				return false, false
 			}
 			in.Hooks.Invoke = func(in *absint.Interp, recv absint.Val, m *types.Func, args []absint.Val, site ssa.Instruction) (absint.Val, bool) {
 				if recv != absint.Val(input) {
@@ -354,6 +440,15 @@ func checkCombinator(p *load.Program, s *oblig.Set, fn *ssa.Function, parserT ty
 		out = append(out, fmt.Sprintf("%s: error=%s result=%s position=%s", pi.end, pi.retErr, pi.retRes, pi.pos))
 		return out
 	}
+	if os.Getenv("CALCSA_DEBUG_TXN") != "" {
+		seen := map[string]bool{}
+		for _, pi := range all {
+			if pi.end == "return" && pi.retErr == "nil" && !seen[pi.retRes] {
+				seen[pi.retRes] = true
+				fmt.Fprintf(os.Stderr, "TXN %s: %s\n", name, pi.retRes)
+			}
+		}
+	}
 	nRet := 0
 	bad := map[string]bool{}
 	report := func(rule, k, detail string, pi *pathInfo) {
@@ -434,6 +529,28 @@ func checkCombinator(p *load.Program, s *oblig.Set, fn *ssa.Function, parserT ty
 				}
 			}
 		}
+		// X10 the nodes of a successful result are the nodes of the sub-parsers that
+		// matched and stayed matched, whole and in order, less those the combinator
+		// documents as dropped
+		if pi.retErr == "nil" && !noResultLaw[name] {
+			got, opaque := flatResult(pi.retRes)
+			var want []string
+			for _, e := range pi.events {
+				if e.kind != "P" || !e.ok || !strings.HasPrefix(pi.pos, e.pos1) {
+					continue
+				}
+				if dropsAll[name] || dropped(fn, name, e.name) {
+					continue
+				}
+				want = append(want, e.res)
+			}
+			switch {
+			case opaque != "":
+				report("X10", key("the result is the matched sub-results, whole and in order"), "a successful result must be the concatenation of whole sub-parser results; it is "+pi.retRes+" (part of a sub-result is cut out or rearranged: "+opaque+"), which is only right for sub-parsers that return a particular number of nodes", pi)
+			case strings.Join(got, " ") != strings.Join(want, " "):
+				report("X10", key("the result is the matched sub-results, whole and in order"), fmt.Sprintf("the sub-parsers that matched and stayed matched built %v (in input order, without what the combinator documents as dropped), the combinator returns %v", want, got), pi)
+			}
+		}
 		// X3 a successful sub-parser whose result is returned keeps its input consumed
 		if pi.retErr == "nil" {
 			for _, e := range pi.events {
@@ -448,6 +565,7 @@ func checkCombinator(p *load.Program, s *oblig.Set, fn *ssa.Function, parserT ty
 		{"X2", "failed alternative consumes nothing", "whenever a failed sub-parser is not propagated, the input is back where that sub-parser started"},
 		{"X3", "success keeps the input consumed", "input consumed by a sub-parser whose result is returned is never rolled back"},
 		{"X8", "a failed alternative contributes no nodes", "no successful result contains nodes built by a sub-parser that failed"},
+		{"X10", "the result is the matched sub-results, whole and in order", "every successful result is the in-order concatenation of the whole results of the sub-parsers that matched and stayed matched, less the documented drops"},
 	} {
 		if !bad[r.rule+key(r.k)] && nRet > 0 {
 			s.OK(r.rule, key(r.k), pos, fmt.Sprintf("%s (%d returning paths)", r.ok, nRet))
